@@ -1,8 +1,8 @@
-\* every well-formed ledger of <= 3 directives over the 16-letter alphabet x up to 3 statements (thorough tier) executed
+\* every well-formed ledger of <= 3 directives over a 10-letter sub-alphabet x up to 3 statements (thorough tier) executed
 \* one after the other on the same connection (any table; on the default table any of 6 FROM qualifier options, through
 \* a FROM clause or by table reference).  HistoryFree: a statement without qualifiers presents the ledger whatever ran before.
 CONSTANTS
-  Alpha <- SmallAlpha
+  Alpha <- SmallAlpha10
   MaxLen = 3
   Keys <- SmallKeys
   Mech = "ok"
